@@ -77,7 +77,8 @@ class NF:
                 return va.t == vb.t
             x, y = dt_ts(va.t), dt_ts(vb.t)
             aligned = z3.ToReal(z3.ToInt(x * 1000)) == x * 1000
-            return z3.And(y <= x, x - y < z3.RealVal("0.001"), z3.Implies(aligned, x == y))
+            # "millisecond truncation": within one millisecond either way (int() truncates toward zero, so pre-1970 instants move forward)
+            return z3.And(x - y < z3.RealVal("0.001"), y - x < z3.RealVal("0.001"), z3.Implies(aligned, x == y))
         if base.startswith("list[") and isinstance(va, Ref) and isinstance(vb, Ref):
             s1, s2 = sa.get(va), sb.get(vb)
             if s1.get("__kind__") == "glist" and s2.get("__kind__") == "glist":
@@ -99,9 +100,9 @@ def describe_factory(o, st):
     return describe
 
 
-def replay_factory(cls, route):
+def replay_factory(cls, route, field=None):
     def replay(inputs):
-        r = native("codec_replay.py", {"cls": cls.key, "route": route, "input": inputs})
+        r = native("codec_replay.py", {"cls": cls.key, "route": route, "input": inputs, "field": field})
         return bool(r.get("confirmed")), r
     return replay
 
@@ -164,7 +165,7 @@ def round_trip(chk, eng, key, route, label):
             so, sb = s2.get(o), s2.get(back)
             for f, ann, _, owner in fields:
                 chk.prove(f"C20.{label}.rt.{f}", s2.pc, nf.equal(s2, so[f], s2, sb[f], ann, owner.module),
-                          desc=f"N({from_name}({to_name}(x))).{f} == N(x).{f}", describe=desc, replay=rp,
+                          desc=f"N({from_name}({to_name}(x))).{f} == N(x).{f}", describe=desc, replay=replay_factory(cls, route, f),
                           sample=f"{cls.name}.{f} via {route}: path condition of {len(s2.pc)} conjuncts => field equality modulo N")
     chk.paths += paths
     return paths
